@@ -615,8 +615,30 @@ Qed.
 
 Lemma step_spec st o : inv st -> op_hyp st o = true -> step_ok st o.
 Proof.
-  intros Hinv Hyp. unfold step_ok. destruct o as [k r g|k r g|k r gs|k r gs|x f v|x f items de|x f|c f i n vs|x|x f|x f];
+  intros Hinv Hyp. unfold step_ok. destruct o as [k r g|k r g|k r gs|k r gs|x f v|x f items de|x f|c f i n vs|x|x f|x f|c f fi i n items];
     cbn [step notified op_hyp] in *.
+  12: { (* SpliceCont *)
+    apply andb_true_iff in Hyp. destruct Hyp as [Hyp Ac]. apply andb_true_iff in Hyp. destruct Hyp as [Nf Fr].
+    apply negb_true_iff in Nf.
+    set (c' := st_next st) in *. set (h := st_heap st) in *.
+    set (st1 := mkState (st_traits st) (upd h c' fi items) (st_hooks st) (st_regs st) (S c')).
+    assert (inv st1) as I1.
+    { unfold inv, st1. cbn [st_hooks st_heap st_regs st_traits]. rewrite (expected_all_fresh _ _ _ _ _ _ Fr). exact Hinv. }
+    assert (st_heap st1 c f = h c f) as SL.
+    { unfold st1. cbn [st_heap]. apply upd_other_slot. unfold slot_eqb. rewrite Nf. apply andb_false_r. }
+    pose proof (change_ok st1 c f (splice (h c f) i n [c']) (spliced_out (h c f) i n) [c']
+                  (firstn i (h c f) ++ skipn n (skipn i (h c f))) false true I1) as C.
+    rewrite SL in C.
+    specialize (C (splice_old _ _ _) (splice_new _ _ _ _) (edge_acyclic_b_spec _ _ _ _ _ _ Ac)).
+    destruct (change st1 c f (splice (h c f) i n [c']) (spliced_out (h c f) i n) [c'] false true) as [st' ob].
+    destruct C as [I [O [_ [_ Cs]]]]. cbn [ob_out ob_calls]. split; [exact I|]. split; [exact O|].
+    destruct Cs as [ND [Sp Sl]]. split; [exact ND|]. split; [|exact Sl].
+    intros k0. rewrite Sp. cbn [st_regs st_heap st_traits st1].
+    split; intros [g0 [Hr Hm]]; exists g0; (split; [exact Hr|]).
+    + rewrite matched_frame in Hm; [exact Hm|]. unfold fresh_b in Fr. rewrite forallb_forall in Fr.
+      apply negb_true_iff. apply (Fr (k0, g0) Hr).
+    + rewrite matched_frame; [exact Hm|]. unfold fresh_b in Fr. rewrite forallb_forall in Fr.
+      apply negb_true_iff. apply (Fr (k0, g0) Hr). }
   11: discriminate.
   10: { (* AddTrait *)
     destruct (st_traits st x f) eqn:Nt.
@@ -876,8 +898,42 @@ Lemma step_law st o : inv st -> op_hyp st o = true ->
   /\ law_regs (st_regs st) o (snd (step st o)) = st_regs (fst (step st o))
   /\ law_traits (st_traits st) o (snd (step st o)) = st_traits (fst (step st o)).
 Proof.
-  intros Hinv Hyp. destruct o as [k r g|k r g|k r gs|k r gs|x f v|x f items de|x f|c f i n vs|x|x f|x f];
+  intros Hinv Hyp. destruct o as [k r g|k r g|k r gs|k r gs|x f v|x f items de|x f|c f i n vs|x|x f|x f|c f fi i n items];
     cbn [step op_hyp] in *.
+  12: { (* SpliceCont *)
+    apply andb_true_iff in Hyp. destruct Hyp as [Hyp Ac]. apply andb_true_iff in Hyp. destruct Hyp as [Nf Fr].
+    apply negb_true_iff in Nf.
+    set (c' := st_next st) in *. set (h := st_heap st) in *.
+    set (st1 := mkState (st_traits st) (upd h c' fi items) (st_hooks st) (st_regs st) (S c')).
+    assert (inv st1) as I1.
+    { unfold inv, st1. cbn [st_hooks st_heap st_regs st_traits]. rewrite (expected_all_fresh _ _ _ _ _ _ Fr). exact Hinv. }
+    assert (st_heap st1 c f = h c f) as SL.
+    { unfold st1. cbn [st_heap]. apply upd_other_slot. unfold slot_eqb. rewrite Nf. apply andb_false_r. }
+    assert (edge_acyclic (st_traits st1) (st_heap st1) (st_regs st1) c f (splice (h c f) i n [c'])) as Ac'
+      by (apply edge_acyclic_b_spec; exact Ac).
+    assert (Permutation (st_heap st1 c f) ((firstn i (h c f) ++ skipn n (skipn i (h c f))) ++ spliced_out (h c f) i n)) as Ho
+      by (rewrite SL; apply splice_old).
+    destruct (change_spec st1 c f (splice (h c f) i n [c']) (spliced_out (h c f) i n) [c']
+                (firstn i (h c f) ++ skipn n (skipn i (h c f))) false true I1 Ho (splice_new _ _ _ _) Ac')
+      as [H' [ks [E [PH [ND Sp]]]]].
+    rewrite E. cbn [fst snd st_heap st_regs st_traits ob_delta ob_out ob_calls st1 law_regs law_traits].
+    set (ha := upd (upd h c' fi items) c f (splice (h c f) i n [c'])).
+    assert (apply_delta h [(c', fi, items); (c, f, splice (h c f) i n [c'])] = ha) as AD by reflexivity.
+    split; [|split; [exact AD|split; reflexivity]].
+    apply (law_step_from_facts (st_traits st) h (st_regs st) (SpliceCont c f fi i n items) _ c f eq_refl);
+      cbn [ob_out ob_calls ob_delta]; rewrite ?AD; rewrite ?map_call_key.
+    + reflexivity.
+    + exact ND.
+    + intros k0 I. apply Sp in I. destruct I as [g0 [Hr Hm]]. exists g0. split; [exact Hr|].
+      cbn [st_heap st_regs st_traits st1] in *.
+      rewrite matched_frame in Hm; [exact Hm|]. unfold fresh_b in Fr. rewrite forallb_forall in Fr.
+      apply negb_true_iff. apply (Fr (k0, g0) Hr).
+    + intros _ k0 g0 Hr Hm. apply Sp. exists g0. split; [exact Hr|]. cbn [st_heap st_traits st1].
+      rewrite matched_frame; [exact Hm|]. unfold fresh_b in Fr. rewrite forallb_forall in Fr.
+      apply negb_true_iff. apply (Fr (k0, g0) Hr).
+    + cbn [classify]. discriminate.
+    + apply forallb_map_calls. intros k0. cbn [call_ok]. rewrite !Nat.eqb_refl. cbn [andb].
+      unfold ha. rewrite upd_same. apply perm_eqb_of_perm. apply splice_delta. }
   11: discriminate.
   10: { (* AddTrait *)
     destruct (st_traits st x f) eqn:Nt.
